@@ -78,6 +78,7 @@ class Extracted:
                 except AnalysisError as e:
                     self.errors[c] = str(e)
         self.ctl_generic = self.r.extract(model.func(f"{CTL}.unpack_ldap_control"))
+        self._control_envelope()
         for c in self.ctl_classes:
             fi = model.find_method(c, "unpack")
             if fi is not None:
@@ -85,6 +86,48 @@ class Extracted:
                     self.rres[c] = self.r.extract(fi, c)
                 except AnalysisError as e:
                     self.errors[c] = str(e)
+
+    def _control_envelope(self) -> None:
+        """The Control SEQUENCE is opened either by the control decoder itself or by every caller just before it hands the content
+        reader over (a contract moved across the call): both are the same grammar.  In the second form the envelope found at each
+        call site is moved into the nonterminal, which is where the writer side (`LDAPControl.pack`) has it."""
+        top = self.ctl_generic.nodes
+        if len(top) == 1 and top[0].kind == "cons":
+            return
+        wrapper = None
+        bare = 0
+
+        def walk(lst):
+            nonlocal wrapper, bare
+            for i, n in enumerate(lst):
+                if n.kind == "cons" and len(n.children) == 1 and n.children[0].kind == "ref" and n.children[0].nt == f"{CTL}.LDAPControl" and not n.alts:
+                    if wrapper is None:
+                        wrapper = n
+                    elif (wrapper.ukind, str(wrapper.spec)) != (n.ukind, str(n.spec)):
+                        raise AnalysisError("the Control envelope is read with different tags at different call sites of the control decoder")
+                    lst[i] = n.children[0]
+                    continue
+                if n.kind == "ref" and n.nt == f"{CTL}.LDAPControl":
+                    bare += 1
+                walk(n.children)
+                for _sp, cs in n.alts:
+                    walk(cs)
+        seen = set()
+        for res in [self.envelope] + list(self.rres.values()):
+            stack = [res]
+            while stack:
+                r_ = stack.pop()
+                if id(r_) in seen:
+                    continue
+                seen.add(id(r_))
+                walk(r_.nodes)
+                stack.extend(r_.inlines.values())
+        if wrapper is None and bare == 0:
+            return
+        if bare:
+            raise AnalysisError("the control decoder does not open the Control SEQUENCE and some caller does not either: the Control grammar differs between call sites")
+        import dataclasses as _dc
+        self.ctl_generic.nodes = [_dc.replace(wrapper, children=list(top), var="", appended_to="")]
 
     def class_tag_number(self, c: str) -> int:
         cc = self.m.class_const(c, "tag_number")
